@@ -12,7 +12,7 @@ COMMON_ASSUMPTIONS = [
 PROPS = {
     "C17": {
         "kani": ["ext_try_from_u8_exact:kani-complete", "ext_try_from_usize_exact:kani-complete"],
-        "units": ["ctors", "commit"],
+        "units": ["ctors", "commit", "pedersen_ctor"],
         "design_ref": "DESIGN.md section 7, C17",
         "technique": "contract-based deductive verification (Verus) of the real constructors, extracted mechanically on every run; iff-postconditions",
         "claim": "Every validating constructor (RangeParameters::init, RangeStatement::init, RangeWitness::init, CommitmentOpening::r_len/new, "
@@ -252,7 +252,7 @@ PROPS = {
                           "(bits, capacity) in {(4,1),(4,4),(8,2),(64,2)} and their 4x capacities are computed by the real crate and checked for non-identity, pairwise distinctness, "
                           "capacity independence and compress() agreement, and compared with an independent recomputation of the documented derivations (SHAKE256 chain, SHA3-512 hash to "
                           "point, Ristretto basepoint) done with the sha3 crate directly",
-        "units": ["gens_new", "gens_chain", "gens", "ctors"],
+        "units": ["gens_new", "gens_chain", "pedersen_ctor", "gens", "ctors"],
         "design_ref": "DESIGN.md section 7, C11",
         "technique": "contract-based deductive verification (Verus) of the real BulletproofGens::new, generator iterators and accessors against a SHAKE256 / hash-to-group model",
         "claim": "Proved: BulletproofGens::new(n, c) returns Ok iff c <= 2^32, and then g_vec[i][j] is the j-th point of the generator chain labelled 'G' || le32(i) and h_vec[i][j] "
@@ -260,7 +260,9 @@ PROPS = {
                  "g_iter / h_iter (the real AggregatedGensIter::next, verified against vstd's iterator laws) yield the first n*m generators party-major; RangeStatement::init stores "
                  "compress(commitment_i) position-wise; the accessors return the stored fields. The derivation primitives themselves are under contract (unit gens_chain): "
                  "GeneratorsChain::new absorbs exactly 'GeneratorsChain' || label into SHAKE256, GeneratorsChain::next returns from_uniform_bytes of the next 64 output bytes, and "
-                 "hash_from_bytes_sha3_512(x) = from_uniform_bytes(SHA3-512(x)) - against uninterpreted SHAKE256 / SHA3-512 functions. Determinism is a consequence of the functional contracts. NOT decidable by "
+                 "hash_from_bytes_sha3_512(x) = from_uniform_bytes(SHA3-512(x)) - against uninterpreted SHAKE256 / SHA3-512 functions; create_pedersen_gens_with_extension_degree(d) "
+                 "(unit pedersen_ctor) returns the Ristretto basepoint as value generator and exactly the first d masking base points with their compressed forms, with "
+                 "g_base_vec.len() == d (the two once-initialised tables it reads are assumed to hold masking_point(k) and its encoding). Determinism is a consequence of the functional contracts. NOT decidable by "
                  "contracts: pairwise distinctness and non-identity (facts about concrete SHAKE/SHA3 outputs), the once-initialised statics of ristretto.rs (string formatting "
                  "inside OnceCell closures) and 'on every thread'.",
         "assumptions": ["GeneratorsChain::new(label).take(n) is modelled as the first n points p_from_uniform(SHAKE256('GeneratorsChain' || label)[64j..64j+64]) (site-specific rewrite R-CHAINTAKE: `take(n)` of the chain is its first n `next()` results; new / next themselves are verified in unit gens_chain)",
